@@ -262,7 +262,7 @@ func (c10) Run(c *Case, st *Stats) []Violation {
 					ch := make(chan *asset.Snapshot, c.Cap)
 					simrt.GoKind("prod", func() {
 						for _, v := range snaps {
-							simrt.Yield(-2, "prod-send")
+							prodYield()
 							ch <- v
 						}
 						simrt.Yield(-3, "prod-close")
